@@ -937,6 +937,81 @@ fn ops_case(c: &mut Ctx, fam: &str, idx: u64, rng: &mut Rng, w: &[u8], other: &[
     if let Ok(r) = name.clone().strip_suffix(&oname) {
         chk_rel(c, fam, idx, "Name::strip_suffix", r.as_slice(), &ex);
     }
+    // RelativeName::starts_with / ends_with / strip_suffix against the label model; the candidates include
+    // decoys: a name whose last (first) label merely CONTAINS the wire octets of the candidate
+    {
+        let rl: Vec<Vec<u8>> = crate::refimpl::wire::labels(relw).iter().map(|l| l.to_ascii_lowercase()).collect();
+        let mk_rel = |wire: &[u8]| domain::base::name::RelativeName::<Vec<u8>>::from_octets(wire.to_vec()).ok();
+        let mut cands: Vec<Vec<u8>> = Vec::new();
+        // own suffixes and prefixes, also in other case
+        for &b in boundaries(relw).iter().chain(std::iter::once(&relw.len())) {
+            cands.push(relw[b..].to_vec());
+            cands.push(relw[..b].to_vec());
+            cands.push(relw[b..].to_ascii_uppercase());
+        }
+        // a short unrelated name
+        cands.push(b"\x03com".to_vec());
+        let mut subjects: Vec<Vec<u8>> = vec![relw.to_vec()];
+        for cand in cands.clone() {
+            if cand.is_empty() || cand.len() > 40 {
+                continue;
+            }
+            // decoy: one label "a" + wire(cand)  /  wire(cand) + "a"
+            let mut d1 = vec![(1 + cand.len()) as u8, b'a'];
+            d1.extend_from_slice(&cand);
+            let mut d2 = vec![(cand.len() + 1) as u8];
+            d2.extend_from_slice(&cand);
+            d2.push(b'a');
+            subjects.push(d1);
+            subjects.push(d2);
+        }
+        let _ = rl;
+        for sw in subjects.iter().take(12) {
+            let Some(subj) = mk_rel(sw) else { continue };
+            let sl: Vec<Vec<u8>> = crate::refimpl::wire::labels(sw).iter().map(|l| l.to_ascii_lowercase()).collect();
+            for cw in cands.iter().take(16) {
+                let Some(cand) = mk_rel(cw) else { continue };
+                let cl: Vec<Vec<u8>> = crate::refimpl::wire::labels(cw).iter().map(|l| l.to_ascii_lowercase()).collect();
+                let want_ends = sl.len() >= cl.len() && sl[sl.len() - cl.len()..] == cl[..];
+                let want_starts = sl.len() >= cl.len() && sl[..cl.len()] == cl[..];
+                let exr = || json!({"subject": hex(sw), "candidate": hex(cw)});
+                if subj.ends_with(&cand) != want_ends {
+                    c.violation("relative:ends_with", &format!("RelativeName::ends_with is {} for labels {:?} / {:?}", !want_ends, sl.len(), cl.len()), c.replay_of(fam, idx, exr()));
+                    return;
+                }
+                if subj.starts_with(&cand) != want_starts {
+                    c.violation("relative:starts_with", "RelativeName::starts_with disagrees with the label model", c.replay_of(fam, idx, exr()));
+                    return;
+                }
+                let mut t = subj.clone();
+                match t.strip_suffix(&cand) {
+                    Ok(()) => {
+                        if !want_ends {
+                            c.violation("relative:strip_suffix:not-a-suffix", "RelativeName::strip_suffix removed something that is not a suffix of the name", c.replay_of(fam, idx, exr()));
+                            return;
+                        }
+                        chk_rel(c, fam, idx, "RelativeName::strip_suffix", t.as_slice(), &ex);
+                        if t.as_slice() != &sw[..sw.len() - cw.len()] {
+                            c.violation("relative:strip_suffix:content", "RelativeName::strip_suffix left the wrong prefix", c.replay_of(fam, idx, exr()));
+                            return;
+                        }
+                    }
+                    Err(_) => {
+                        if want_ends {
+                            c.violation("relative:strip_suffix:own-suffix-rejected", "RelativeName::strip_suffix rejected a suffix of the name", c.replay_of(fam, idx, exr()));
+                            return;
+                        }
+                        if t.as_slice() != &sw[..] {
+                            c.violation("relative:strip_suffix:changed-on-error", "RelativeName::strip_suffix changed the name although it failed", c.replay_of(fam, idx, exr()));
+                            return;
+                        }
+                    }
+                }
+                c.evals_n(1);
+            }
+        }
+        c.count("relative_suffix_relations", 1);
+    }
     // relative-name slicing
     let rbs = {
         let mut v = boundaries(relw);
